@@ -24,3 +24,4 @@ def run(ctx, rep):
     more6.rule_pivot_growth_column(mod, rep)
     from ..rules import more5 as _m5
     _m5.rule_inverse_fill(mod, rep)
+    more6.rule_max1_scan(mod, rep, config=ctx.config)
